@@ -103,12 +103,16 @@ QUICK_T = (("T1", None), ("T2", 3), ("T3", 2))
 THOROUGH_T = (("T1", None), ("T2", None), ("T3", None), ("T4", 4), ("T7", None))
 
 
-def c05_fva(E, templates=QUICK_T, fractions=(1, Fraction(1, 2), 0), pfba=(None,)):
+def c05_fva(E, templates=QUICK_T, fractions=(1, Fraction(1, 2), 0), pfba=(None,), solved_before=False):
     env.for_path(E)
     tid, w = E.pick("template", templates)
     m = networks.build(tid)
     t = networks.T[tid]
     obj = t["objectives"][E.choice("objective", len(t["objectives"]))]
+    if solved_before:
+        # the solver holds status 'optimal' and a primal solution of the model as it was before the bounds below
+        m.objective = {m.reactions.get_by_id(r): c for r, c in obj.items()}
+        m.optimize()
     direction = E.pick("direction", ["max", "min"])
     fraction = E.pick("fraction", fractions)
     factor = E.pick("pfba_factor", pfba) if len(pfba) > 1 else pfba[0]
@@ -149,6 +153,10 @@ def c05_fva(E, templates=QUICK_T, fractions=(1, Fraction(1, 2), 0), pfba=(None,)
     if recs is not None and len(recs) != 2 * len(ids):
         recs = None
     check_ranges(E, m, res, ids, lp, P, recs)
+
+
+def c05_solved_before(E):
+    return c05_fva(E, templates=(("T2", 2), ("T3", 2)), fractions=(1, Fraction(1, 2)), pfba=(None, 1), solved_before=True)
 
 
 def c05_fva_thorough(E):
@@ -252,6 +260,9 @@ HARNESSES = [
       bounds="T1,T2,T3,T7 all bounds symbolic, T4 first 4; fractions {1,9/10,1/2,0}"),
     H("c05_pfba_factor", c05_pfba_factor, tiers=("quick",), quick=dict(max_paths=3000, time_budget=45),
       bounds="T2,T3; first 2 reactions symbolic; pfba_factor in {1, 11/10}; fraction in {1,1/2}"),
+    H("c05_solved_before", c05_solved_before, quick=dict(max_paths=4000, time_budget=45), thorough=dict(max_paths=4000, time_budget=90),
+      bounds="as c05_pfba_factor (pfba_factor None or 1), but the model was optimised before its bounds were set: the solver "
+             "still reports 'optimal' and the old primal values when FVA starts"),
     H("c05_loopless", c05_loopless, quick=dict(max_paths=3000, time_budget=70, witnesses=40),
       thorough=dict(max_paths=100000, time_budget=500, witnesses=200), witness_every=4,
       bounds="T3 (2-cycles R1/R2, R3/R2) and T10 (cycle R1 with -R3, uptake below cycle capacity), one symbolic reaction (0 or |b|>=1e-2); loopless=True for 2 internal "
